@@ -191,13 +191,34 @@ func c12Shapes() []*spec.Spec {
 			&spec.Conn{From: "SSA.substream", To: "JN2.a"}, &spec.Conn{From: "SSB.substream", To: "JN2.b"})
 		out = append(out, s)
 	}
+	// a second workflow with a log file of its own is created while the first one is running (two workflows in one
+	// program share the package-level loggers)
+	{
+		in, o1 := []spec.PortDecl{{Name: "in"}}, []spec.PortDecl{{Name: "out"}}
+		x := mk("customlog", 4)
+		x.LogFile = "log/custom-main.log"
+		x.Procs = append(x.Procs, &spec.Proc{Name: "xa", Kind: spec.KCmd, Cmd: spec.BuildCmd("xa", in, o1, nil, nil, nil)})
+		x.Conns = append(x.Conns, &spec.Conn{From: "src.out", To: "xa.in"})
+		y := &spec.Spec{Name: "customlog-first", MaxTasks: 3, LogFile: "log/custom-first.log", Sources: map[string]string{}}
+		ysrc := &spec.Proc{Name: "ysrc", Kind: spec.KFileSource}
+		for k := 0; k < 8; k++ {
+			f := fmt.Sprintf("y%02d.txt", k)
+			ysrc.Files = append(ysrc.Files, f)
+			x.Sources[f] = f + "\n"
+		}
+		y.Procs = append(y.Procs, ysrc, &spec.Proc{Name: "ya", Kind: spec.KCmd, Cmd: spec.BuildCmd("ya", in, o1, nil, nil, map[string]string{"sleep": "10"})},
+			&spec.Proc{Name: "yb", Kind: spec.KGoFunc, Cmd: spec.BuildCmd("yb", in, o1, nil, nil, nil)})
+		y.Conns = append(y.Conns, &spec.Conn{From: "ysrc.out", To: "ya.in"}, &spec.Conn{From: "ya.out", To: "yb.in"})
+		x.Also = []*spec.Spec{y}
+		out = append(out, x)
+	}
 	return out
 }
 
 func c12(args []string) {
 	c := chk.New("C12", "exploration", args)
 	c.Build(true)
-	c.Rule("the subject built with the Go race detector (-race, GORACE=halt_on_error=0 log_path=...) runs generated graphs biased to shared state (fan-out of one out-port to several consumers, MapToTags beside sibling consumers, multi-output tasks feeding different consumers, fan-in, multi-core tasks, parameter feeders and combinators, Go functions) and directed shapes (tagging + reading siblings + GroupByTag concatenation, simultaneous closing of 6 upstreams, RunTo with literal parameter feeders, components with internal goroutines, a streaming pair, 16 streamed items from a producer with additional regular outputs, one out-port fanned out to Go functions that Read() the same items, the sink draining files and parameters at once, two joined in-ports), each under several yield-point seeds and GOMAXPROCS values, every second run with passive hooks, every fourth also with the library's logging reduced to errors (an active hook takes the monitor mutex, which is a synchronisation the race detector sees and which would order accesses the plain library leaves unordered); oracle: every 'WARNING: DATA RACE' block with a scipipe frame is a violation, de-duplicated by the pair of innermost scipipe frames; blocks without any scipipe frame are harness bugs (check reported as broken). distinct_nontrivial = distinct interleaving signatures observed under the race detector")
+	c.Rule("the subject built with the Go race detector (-race, GORACE=halt_on_error=0 log_path=...) runs generated graphs biased to shared state (fan-out of one out-port to several consumers, MapToTags beside sibling consumers, multi-output tasks feeding different consumers, fan-in, multi-core tasks, parameter feeders and combinators, Go functions) and directed shapes (tagging + reading siblings + GroupByTag concatenation, simultaneous closing of 6 upstreams, RunTo with literal parameter feeders, components with internal goroutines, a streaming pair, 16 streamed items from a producer with additional regular outputs, one out-port fanned out to Go functions that Read() the same items, the sink draining files and parameters at once, two joined in-ports, a second workflow with a custom log file created while a first one is running), each under several yield-point seeds and GOMAXPROCS values, every second run with passive hooks, every fourth also with the library's logging reduced to errors (an active hook takes the monitor mutex, which is a synchronisation the race detector sees and which would order accesses the plain library leaves unordered); oracle: every 'WARNING: DATA RACE' block with a scipipe frame is a violation, de-duplicated by the pair of innermost scipipe frames; blocks without any scipipe frame are harness bugs (check reported as broken). distinct_nontrivial = distinct interleaving signatures observed under the race detector")
 	c.Assume("the race detector reports happens-before violations on executed paths only")
 	rng := c.Rand("c12")
 	type job struct {
